@@ -269,6 +269,8 @@ type actOpts struct {
 	missPos, missDist                 int // out of 100
 	invalidValueInsteadOfMissing      bool
 	zeroDist, equalDist, decreasing   bool
+	restartDist                       bool // distance restarts from 0 at every session after the first (multisport legs)
+	bigDrops                          bool // decreasing: drops of up to the whole distance, not only a few metres
 	pauses                            bool
 	tinyTimerTime                     bool // total_timer_time written as a small raw number (as the pinned tests do)
 	lapMissing                        int  // out of 100: lap without start_time / total_timer_time / positions
@@ -323,6 +325,9 @@ func genActivity(r *rng, o actOpts) []proto.Message {
 	lat, long := int32(-80000000+r.intn(1000000)), int32(1200000000+r.intn(1000000))
 	for s := 0; s < o.nSessions; s++ {
 		sesStart := t
+		if o.restartDist && s > 0 {
+			dist = 0
+		}
 		sesStartDist := dist
 		var sesFirst, sesLast *proto.Message
 		var sesPause uint32
@@ -403,7 +408,9 @@ func genActivity(r *rng, o actOpts) []proto.Message {
 				case o.zeroDist:
 				case o.equalDist && r.chance(1, 2):
 				case o.decreasing && r.chance(1, 10):
-					if dist > 500 {
+					if o.bigDrops && dist > 0 {
+						dist -= uint32(r.intn(int(dist) + 1))
+					} else if dist > 500 {
 						dist -= uint32(r.intn(500))
 					}
 				default:
@@ -646,7 +653,7 @@ func knownC20(id, kind string, c c20case, extra map[string]any) {
 // ------------------------------------------------------------------ conceal
 
 type phT struct {
-	num                                            uint16
+	num                                             uint16
 	startTime, ttt, elapsed, ts, sla, slo, ela, elo byte
 }
 
@@ -1018,7 +1025,14 @@ func removeCase(r *rng, idx int) {
 func reduceCase(r *rng, idx int) {
 	o := randOpts(r, r.chance(1, 5))
 	if r.chance(2, 3) {
-		o.missDist, o.decreasing = 0, false // mostly the stated domain
+		o.missDist, o.decreasing = 0, false // mostly activities as devices write them
+	} else if r.chance(1, 2) {
+		o.decreasing, o.bigDrops = true, r.chance(1, 2) // reduce is stated for all message lists: distances may go back
+	}
+	if r.chance(1, 4) { // multisport: each leg counts its distance from 0
+		o.restartDist = true
+		o.nSessions = 2 + r.intn(2)
+		stat("reduce_distance_restarts", 1)
 	}
 	msgs := genActivity(r, o)
 	in := snapAll(msgs)
@@ -1164,7 +1178,7 @@ func oracleReduceInterval(cs c20case, in, out []pm, key byte, interval uint32) {
 			}
 		} else if kept && closer && bad == nil {
 			bad = map[string]any{"index": i, "why": "kept although closer than the interval to the previously kept record", "value": v, "previous_kept": prev}
-		} else if !kept && !closer && bad == nil {
+		} else if !kept && !closer && !(v != u32inv && prevValid && v < prev && prev-v < interval) && bad == nil { // going back by less than the interval is closer, too
 			bad = map[string]any{"index": i, "why": "dropped although not closer than the interval to the previously kept record", "value": v, "previous_kept": prev, "previous_valid": prevValid}
 		}
 		firstSeen = true
@@ -1346,7 +1360,9 @@ func oracleCombine(cs c20case, ins [][]pm, out []pm, err error) {
 			files = append(files, f)
 		}
 	}
-	sort.SliceStable(files, func(a, b int) bool { return files[a][0].u32(fieldnum.FileIdTimeCreated) < files[b][0].u32(fieldnum.FileIdTimeCreated) })
+	sort.SliceStable(files, func(a, b int) bool {
+		return files[a][0].u32(fieldnum.FileIdTimeCreated) < files[b][0].u32(fieldnum.FileIdTimeCreated)
+	})
 	wantErr := false
 	for _, f := range files {
 		has := false
